@@ -31,7 +31,10 @@ LEVEL_NOTE = (
 )
 RULE = (
     "cases alternate between (a) C01-grammar problems with interpreted functions in conditions and effect values (all "
-    "numeric types bounded so the state space is finite) solved through interpreted_functions_planning[vk-bfs] and (b) "
+    "numeric types bounded so the state space is finite) and two directed families (one application per expression; 2-3 "
+    "applications of the same / different functions on different arguments in ONE precondition, guard or effect value, over "
+    "counters of which some cannot move, so that learning leaves the expression partially known) solved through "
+    "interpreted_functions_planning[vk-bfs] and (b) "
     "problems with an oversubscription metric (1..3 weighted goals, int/real weights incl. negative and ties) solved through "
     "oversubscription[vk-bfs]. evaluations = judged solve() results. distinct_nontrivial = distinct problems where (a) the "
     "returned plan is non-empty or the problem is unsolvable although the relaxation needed >= 2 planner calls, (b) two "
@@ -55,7 +58,7 @@ FRESH_ENV_EVERY = 1
 
 def plan(tier, seed):
     b = BOUNDS[tier]
-    return simple_plan(PROPERTY, tier, seed, b["n"], b["n"], shards_quick=16, shards_thorough=16)
+    return simple_plan(PROPERTY, tier, seed, b["n"], b["n"], shards_quick=8, shards_thorough=16)
 
 
 def run_shard(spec, res):
@@ -146,6 +149,130 @@ def _directed_if(rng):
     return rec, feats
 
 
+def _num_ev(e, st):
+    """Value of a numeric / Boolean recipe over interpreted functions of vk.recipe.IF_TABLE (generator-side only: used to
+    pick thresholds that make a chosen target state satisfy the condition; the oracle of the check is seqsem/evalx)."""
+    from vk.recipe import IF_TABLE
+
+    k = e[0]
+    if k == "i":
+        return int(e[1])
+    if k == "f":
+        return st[e[1]]
+    if k == "if":
+        return IF_TABLE[e[1]][0](*[_num_ev(a, st) for a in e[2:]])
+    if k == "plus":
+        return sum(_num_ev(a, st) for a in e[1:])
+    if k == "minus":
+        return _num_ev(e[1], st) - _num_ev(e[2], st)
+    if k == "times":
+        r = 1
+        for a in e[1:]:
+            r *= _num_ev(a, st)
+        return r
+    raise ValueError(e)
+
+
+def _directed_multi_if(rng):
+    """Directed family: ONE expression (precondition / effect value / goal-relevant guard) with 2-3 interpreted-function
+    applications (same or different functions, different arguments) over two counters of which one may be immovable. The
+    relaxation of the meta-engine then has to cope with partial knowledge: after a refuted candidate plan some applications
+    of the expression are learnt for their current arguments while others meet new arguments."""
+    hi = rng.choice([2, 3, 3, 4])
+    names = ["x", "y"] + (["w"] if rng.random() < 0.3 else [])
+    init = {n: rng.choice([0, 0, 1]) for n in names}
+    fl = [{"name": n, "type": ["int", 0, hi], "sig": [], "default": None} for n in names]
+    fl.append({"name": "done", "type": "bool", "sig": [], "default": ["b", False]})
+    feats = ["interpreted_function", "directed-multi-if"]
+    acts = []
+    movable = [n for n in names if rng.random() < 0.6]
+    if not movable:
+        movable = [rng.choice(names)]
+    for n in movable:
+        acts.append({"name": "inc_" + n, "params": [], "pre": [], "effects": [{"kind": "inc", "fluent": ["f", n], "value": ["i", 1], "cond": None, "forall": []}]})
+        if rng.random() < 0.25:
+            acts.append({"name": "dec_" + n, "params": [], "pre": [], "effects": [{"kind": "dec", "fluent": ["f", n], "value": ["i", 1], "cond": None, "forall": []}]})
+    if len(movable) < len(names):
+        feats.append("multi-if:immovable-argument")
+
+    def arg(n):
+        u = rng.random()
+        if u < 0.7:
+            return ["f", n]
+        return ["plus", ["f", n], ["i", rng.choice([1, 2])]] if u < 0.85 else ["minus", ["f", n], ["i", 1]]
+
+    def num_app(n):
+        fn = rng.choice(["if_double", "if_succ", "if_sq", "if_sum"])
+        if fn == "if_sum":
+            return ["if", fn, arg(n), ["i", rng.choice([0, 1, 3])]]
+        return ["if", fn, arg(n)]
+
+    def bool_app(n, other):
+        u = rng.random()
+        if u < 0.4:
+            return ["if", "if_pos", ["minus", ["f", n], ["i", rng.choice([0, 1, 2])]]]
+        if u < 0.8:
+            a, b = ["f", n], ["i", rng.choice([1, 2, 3])]
+            return ["if", "if_lt"] + ([a, b] if rng.random() < 0.5 else [b, a])
+        return ["if", "if_lt", ["f", n], ["f", other]]
+
+    k = 2 if rng.random() < 0.7 else 3
+    over = [names[i % len(names)] for i in range(k)]
+    rng.shuffle(over)
+    # target assignment (reachable by construction: immovable counters keep their initial value)
+    tgt = {n: (rng.randint(init[n], hi) if n in movable else init[n]) for n in names}
+    if tgt == init and rng.random() < 0.8:
+        n = rng.choice(movable)
+        tgt[n] = min(hi, init[n] + rng.choice([1, 1, 2]))
+    form = rng.choice(["numeric-precondition", "numeric-precondition", "boolean-precondition", "effect-value", "goal-guard"])
+    feats.append("multi-if:" + form)
+    go_eff = [{"kind": "assign", "fluent": ["f", "done"], "value": ["b", True], "cond": None, "forall": []}]
+    goals = [["f", "done"]]
+    if form in ("numeric-precondition", "goal-guard", "effect-value"):
+        apps = [num_app(n) for n in over]
+        comb = ["plus"] + apps if rng.random() < 0.7 else (["minus", apps[0], ["plus"] + apps[1:]] if len(apps) > 2 else ["minus", apps[0], apps[1]])
+        v = _num_ev(comb, tgt)
+        if form == "effect-value":
+            zhi = max(_num_ev(comb, {n: a for n, a in zip(names, vals)}) for vals in __import__("itertools").product(range(hi + 1), repeat=len(names)))
+            zlo = min(_num_ev(comb, {n: a for n, a in zip(names, vals)}) for vals in __import__("itertools").product(range(hi + 1), repeat=len(names)))
+            fl.append({"name": "z", "type": ["int", min(zlo, -1), zhi + 1], "sig": [], "default": None})
+            init["z"] = -1 if zlo >= 0 else zlo
+            acts.append({"name": "calc", "params": [], "pre": [], "effects": [{"kind": "assign", "fluent": ["f", "z"], "value": comb, "cond": None, "forall": []}]})
+            goals = [[rng.choice(["eq", "ge"]), ["f", "z"], ["i", v]]]
+            feats.append("if-in-effect-value")
+        else:
+            rel = rng.choice(["ge", "eq", "gt", "le"])
+            c = v - 1 if rel == "gt" else v
+            cond = [rel, comb, ["i", c]]
+            if form == "goal-guard":
+                # the guard sits in a disjunction with a plain literal: still one expression with several applications
+                cond = ["or", cond, ["gt", ["f", names[0]], ["i", hi]]]
+            acts.append({"name": "go", "params": [], "pre": [cond], "effects": go_eff})
+            feats.append("if-in-precondition")
+    else:
+        apps = [bool_app(n, names[(names.index(n) + 1) % len(names)]) for n in over]
+        lits = [a if rng.random() < 0.6 else ["not", a] for a in apps]
+        u = rng.random()
+        if u < 0.35:
+            cond = ["or"] + lits
+        elif u < 0.6:
+            cond = ["not", ["or"] + lits]
+        elif u < 0.8:
+            cond = ["iff", lits[0], ["or"] + lits[1:]] if len(lits) > 2 else ["iff", lits[0], lits[1]]
+        else:
+            cond = ["and"] + lits
+        acts.append({"name": "go", "params": [], "pre": [cond], "effects": go_eff})
+        feats.append("if-in-precondition")
+    if rng.random() < 0.15:
+        goals = goals + [["gt", ["f", names[0]], ["i", hi]]]
+        feats.append("unsolvable-by-construction")
+    rec = {
+        "name": "dirmif", "types": [["T0", None]], "objects": [["o0", ["user", "T0"]]], "fluents": fl, "actions": acts,
+        "init": [[["f", n], ["i", v]] for n, v in sorted(init.items())], "goals": goals, "invariants": [],
+    }  # fmt: skip
+    return rec, feats
+
+
 def _directed_oversub(rng):
     """Directed family with competing soft goals: Boolean switches and a small counter, actions with side effects, soft goals
     with positive / negative / fractional / tied weights, optional hard goal."""
@@ -183,9 +310,12 @@ def build(key):
 
     rng = rng_for(key)
     mode = "if" if int(key.rsplit(":", 1)[1]) % 2 == 0 else "oversub"
-    if mode == "if" and rng.random() < 0.45:
+    u = rng.random()
+    if mode == "if" and u < 0.3:
         rec, feats = _directed_if(rng)
-    elif mode == "oversub" and rng.random() < 0.5:
+    elif mode == "if" and u < 0.65:
+        rec, feats = _directed_multi_if(rng)
+    elif mode == "oversub" and u < 0.5:
         rec, feats = _directed_oversub(rng)
     else:
         rec, feats = gen_problem(rng, PROFILE_IF if mode == "if" else PROFILE_OS)
@@ -348,8 +478,9 @@ def run_case(key, tier, res):
             res.nt(("if", h(rec)))
         res.count("if:planner_iterations:" + str(min(len(calls), 4)))
         for ft in feats:
-            if ft.startswith("if-in") or ft == "directed-if":
+            if ft.startswith("if-in") or ft.startswith("directed-") or ft.startswith("multi-if:"):
                 res.count("feature:" + ft)
+        multi = "directed-multi-if" in feats
         if status in POSITIVE:
             if result.plan is None:
                 viol("if:positive-status-without-plan", f"status {status} with plan None")
@@ -360,6 +491,10 @@ def run_case(key, tier, res):
             res.count("if:valid_plan_returned")
             if len(calls) >= 2:
                 res.count("if:valid_plan_after_learning")
+            if multi and len(calls) >= 3 and steps:
+                res.count("if:multi_if_valid_plan_after_2_learning_rounds")
+                if "multi-if:immovable-argument" in feats:
+                    res.count("if:multi_if_valid_plan_after_2_learning_rounds:immovable-argument")
         else:
             if solvable:
                 sp = ex.path_to(goal_states[0])
@@ -440,6 +575,9 @@ def thresholds(m):
         ("if:valid_plan_returned", 20),
         ("if:valid_plan_after_learning", 5),
         ("if:unsolvable_agreed", 5),
+        ("feature:directed-multi-if", 30),
+        ("if:multi_if_valid_plan_after_2_learning_rounds", 8),
+        ("if:multi_if_valid_plan_after_2_learning_rounds:immovable-argument", 3),
         ("oversub:optimal_confirmed", 20),
         ("oversub:distinct_gains_reachable", 10),
         ("oversub:negative_weight", 5),
